@@ -36,13 +36,38 @@ func (x *Exec) lemmaTerm(st *State, lm *Lemma, closed bool) Term {
 			t = x.D.Const("lv_"+mangle(lm.Name)+"_"+name, sort)
 		}
 		if gt != nil {
-			guards = append(guards, x.D.WF(t, gt, st.top, 0))
+			if closed {
+				// used as a hypothesis: the statement is about every reference, allocated now or later
+				switch types.Unalias(gt).Underlying().(type) {
+				case *types.Pointer, *types.Map, *types.Chan:
+					guards = append(guards, Ge(t, Zero))
+					env.binds[name] = Bound{V: t, T: gt}
+					continue
+				}
+			}
+			top := st.top
+			guards = append(guards, x.D.WF(t, gt, top, 0))
 		}
 		env.binds[name] = Bound{V: t, T: gt}
 	}
-	body := x.evalBool(env, lm.C)
+	// with(statement, t1, t2, ...): instantiation triggers when the lemma is used as a hypothesis
+	cl := lm.C
+	var trigs []string
+	if cl.E.Kind == "call" && cl.E.Op == "with" && len(cl.E.Args) >= 2 {
+		for _, te := range cl.E.Args[1:] {
+			tv, tt := x.eval(env, cl, te)
+			trigs = append(trigs, ":pattern ("+x.asTerm(env, cl, tv, tt, "").S+")")
+		}
+		c2 := *cl
+		c2.E = cl.E.Args[0]
+		cl = &c2
+	}
+	body := x.evalBool(env, cl)
 	body = Implies(And(guards...), body)
 	if closed && len(qs) > 0 {
+		if len(trigs) > 0 {
+			return mk(SBool, fmt.Sprintf("(forall (%s) (! %s %s))", strings.Join(qs, " "), body.S, strings.Join(trigs, " ")))
+		}
 		return mk(SBool, fmt.Sprintf("(forall (%s) %s)", strings.Join(qs, " "), body.S))
 	}
 	return body
